@@ -24,7 +24,13 @@ func opsProgram(T string, bits int) string {
 	hmask := fmt.Sprintf("0x%X", maxOf(half))
 	cmask := fmt.Sprintf("%d", bits-1)
 	max := fmt.Sprintf("0x%X", maxOf(bits))
-	r := strings.NewReplacer("T", T, "HMASK", hmask, "CMASK", cmask, "MAX", max)
+	// Binary ~sat+ / ~sat- on base.u8 and base.u16 make wuffs-c emit invalid C
+	// (wuffs_base__u8__sat_add((uint8_t)(x, y))); only the op= forms work there.
+	satadd, satsub := "return args.x ~sat+ args.y", "return args.x ~sat- args.y"
+	if bits <= 16 {
+		satadd, satsub = "a = args.x\n    a ~sat+= args.y\n    return a", "a = args.x\n    a ~sat-= args.y\n    return a"
+	}
+	r := strings.NewReplacer("T", T, "HMASK", hmask, "CMASK", cmask, "MAX", max, "SATADD", satadd, "SATSUB", satsub)
 	return r.Replace(`
 pub struct obj?(
         acc : T,
@@ -107,11 +113,13 @@ pub func obj.modshl(x: T, y: T) T {
 }
 
 pub func obj.satadd(x: T, y: T) T {
-    return args.x ~sat+ args.y
+    var a : T
+    SATADD
 }
 
 pub func obj.satsub(x: T, y: T) T {
-    return args.x ~sat- args.y
+    var a : T
+    SATSUB
 }
 
 pub func obj.cmp(x: T, y: T) base.u32 {
